@@ -480,6 +480,39 @@ def run_case(inp):
             lst = pipe.from_arrays([img, img * 2], original_scale=orig)(orig)
             if len(lst) != 2 or not np.array_equal(lst[1], img * 2):
                 V("rescale-identity", "from_arrays at its own scale")
+        elif kind == "files":
+            # providers that read files: every file is rescaled from ITS OWN pixel size (header) unless one is given
+            import os
+            import tempfile
+            import mrcfile
+            import common as C
+            shapes = [tuple(int(v) for v in r.integers(6, 11, size=3)) for _ in range(3)]
+            vox = [float(v) for v in inp["voxels"]]
+            with tempfile.TemporaryDirectory(dir=C.RUN_ROOT if os.path.isdir(C.RUN_ROOT) else None) as d:
+                paths, datas = [], []
+                for i, (sh, v) in enumerate(zip(shapes, vox)):
+                    a = _blob(inp["seed"] + i, sh)
+                    pth = os.path.join(d, f"t{i}" + [".mrc", ".map", ".rec"][i % 3])
+                    with mrcfile.new(pth, overwrite=True) as f:
+                        f.set_data(a.astype(np.float32))
+                        f.voxel_size = 10.0 * v          # angstrom
+                    paths.append(pth)
+                    datas.append(a.astype(np.float32))
+                for given in (None, float(inp["given"])):
+                    got = pipe.from_files(paths, original_scale=given)(scale)
+                    if len(got) != len(paths):
+                        V("files", f"from_files returned {len(got)} images for {len(paths)} paths")
+                        continue
+                    for i, pth in enumerate(paths):
+                        one = np.asarray(pipe.from_file(pth, original_scale=given)(scale))
+                        ref = np.asarray(pipe.from_array(datas[i], original_scale=given if given is not None else vox[i])(scale))
+                        g = np.asarray(got[i])
+                        if one.shape != ref.shape or not np.allclose(one, ref, atol=1e-4):
+                            V("files", f"from_file (pixel size {vox[i]} nm in the header, original_scale={given}) at scale {scale}: "
+                                       f"shape {one.shape}, from_array of the same data gives {ref.shape}")
+                        if g.shape != ref.shape or not np.allclose(g, ref, atol=1e-4):
+                            V("files", f"from_files image {i} (pixel size {vox[i]} nm in the header, original_scale={given}) at scale "
+                                       f"{scale}: shape {g.shape}, expected {ref.shape}")
         elif kind == "morph":
             shape = tuple(inp["shape"])
             b = r.uniform(size=shape) > float(inp["density"])
@@ -556,6 +589,9 @@ def oracle(rng, thorough, deep=False, hints=None):
                           density=float(rng.choice([0.5, 0.8, 0.95])), border=bool(i % 2), full=bool(i == 4),
                           radius=float(rng.choice([0.6, 1.0, 1.7, 2.5])), sigma=float(rng.choice([0.7, 1.5])),
                           scale=float(rng.choice([1.0, 0.5])), seed=int(rng.integers(0, 10 ** 6))))
+    for i in range(3 if big else 1):
+        cases.append(dict(kind="files", scale=float([0.5, 1.0, 0.37][i % 3]), voxels=[[0.5, 1.0, 0.25], [1.0, 0.5, 2.0], [0.37, 0.74, 0.2]][i % 3],
+                          given=[0.8, 0.6, 1.0][i % 3], seed=int(rng.integers(0, 10 ** 6))))
     cases.append(dict(kind="loader", scale=float(rng.choice([1.0, 0.5])), seed=int(rng.integers(0, 10 ** 6))))
     viols, stats = [], {"by_kind": {}, "samples": [{"oracle_case": c} for c in cases[:2]]}
     for c in cases:
